@@ -18,7 +18,7 @@ fn core() -> &'static Vec<Prog> {
         for &so in &STORE_ORDS {
             for &lo in &LOAD_ORDS {
                 for spin_hint in [false, true] {
-                    let aw = |loc, ord| Op::Await { loc, ord, spin_hint };
+                    let aw = |loc, ord| Op::Await { loc, ord, spin_hint, min: 1 };
                     // flag written once; data before it
                     v.push(Prog { nlocs: 2, pre: vec![], threads: vec![vec![aw(0, lo), ld(1, Rlx)], vec![st(1, 5, Rlx), st(0, 1, so)]] });
                     // awaited location written twice: both exit values must be explored
@@ -33,9 +33,9 @@ fn core() -> &'static Vec<Prog> {
             }
         }
         // never-true loops: must be reported, not silently cut off
-        v.push(Prog { nlocs: 1, pre: vec![], threads: vec![vec![Op::Await { loc: 0, ord: Acq, spin_hint: false }], vec![ld(0, Rlx)]] });
-        v.push(Prog { nlocs: 2, pre: vec![], threads: vec![vec![Op::Await { loc: 0, ord: Rlx, spin_hint: true }], vec![st(1, 1, Rel)]] });
-        v.push(Prog { nlocs: 1, pre: vec![], threads: vec![vec![], vec![Op::Await { loc: 0, ord: Sc, spin_hint: false }]] });
+        v.push(Prog { nlocs: 1, pre: vec![], threads: vec![vec![Op::Await { loc: 0, ord: Acq, spin_hint: false, min: 1 }], vec![ld(0, Rlx)]] });
+        v.push(Prog { nlocs: 2, pre: vec![], threads: vec![vec![Op::Await { loc: 0, ord: Rlx, spin_hint: true, min: 1 }], vec![st(1, 1, Rel)]] });
+        v.push(Prog { nlocs: 1, pre: vec![], threads: vec![vec![], vec![Op::Await { loc: 0, ord: Sc, spin_hint: false, min: 1 }]] });
         v
     })
 }
@@ -57,7 +57,7 @@ pub fn prog_at(_tier: u8, seed: u64, idx: usize) -> Prog {
         let waiter = rng.below(nt);
         let loc = rng.below(2) as u8;
         let pos = rng.below(p.threads[waiter].len() + 1);
-        p.threads[waiter].insert(pos, Op::Await { loc, ord: *rng.pick(&LOAD_ORDS), spin_hint: rng.chance(1, 4) });
+        p.threads[waiter].insert(pos, Op::Await { loc, ord: *rng.pick(&LOAD_ORDS), spin_hint: rng.chance(1, 4), min: 1 });
         let writer = (waiter + 1 + rng.below(nt - 1)) % nt;
         if rng.chance(7, 8) {
             let wpos = rng.below(p.threads[writer].len() + 1);
